@@ -130,6 +130,9 @@ QlAddTermG(i, CnI(_), WnI(_, _), CosI(_, _, _)) ==
          b == ((p - 1) % n) + 1
      IN  Mul3(QR(WnI(i, a)), QR(WnI(i, b)), Call(<<"P">>, << <<"x", CosI(i, a, b)>> >>))]))
 
+RECURSIVE ConcatSeqsTo(_, _)
+ConcatSeqsTo(ss, n) == IF n = 0 THEN << >> ELSE ConcatSeqsTo(ss, n - 1) \o ss[n]
+ConcatSeqs(ss) == ConcatSeqsTo(ss, Len(ss))
 \* all definitions of one frame, in dependency order
 FrameDefsG(N, f, l, withW, CnI(_), NbI(_, _), WnI(_, _), BbI(_, _)) ==
   LET M   == 2 * l + 1
@@ -143,7 +146,9 @@ FrameDefsG(N, f, l, withW, CnI(_), NbI(_, _), WnI(_, _), BbI(_, _)) ==
              THEN [p \in 1..(2 * N) |-> LET i == ((p - 1) % N) + 1  kind == IF p <= N THEN "q" ELSE "Q"
                                         IN  <<NW(kind, f, i), WTerm(kind, f, i, l)>>]
              ELSE << >>
-  IN  qs \o Qs \o n2 \o ws
+      \* s_ij of every listed pair (i, k-th neighbour), local and coarse-grained
+      sOf(kind) == ConcatSeqs([i \in 1..N |-> [k \in 1..CnI(i) |-> <<NS(kind, f, i, k), SijTerm(kind, f, i, NbI(i, k), l)>>]])
+  IN  qs \o Qs \o n2 \o ws \o sOf("q") \o sOf("Q")
 
 \* expected observables of one frame (terms over the definitions); cs = thresholds (rationals)
 FrameExpG(N, f, l, withW, cs, CnI(_), NbI(_, _), WnI(_, _), CosI(_, _, _)) ==
@@ -152,13 +157,16 @@ FrameExpG(N, f, l, withW, cs, CnI(_), NbI(_, _), WnI(_, _), CosI(_, _, _)) ==
     ql   |-> [i \in 1..N |-> QlTerm("q", f, i, l)],
     Ql   |-> [i \in 1..N |-> QlTerm("Q", f, i, l)],
     qladd |-> [i \in 1..N |-> QlAddTermG(i, CnI, WnI, CosI)],
-    sij  |-> [i \in 1..N |-> [k \in 1..CnI(i) |-> SijTerm("q", f, i, NbI(i, k), l)]],
-    Sij  |-> [i \in 1..N |-> [k \in 1..CnI(i) |-> SijTerm("Q", f, i, NbI(i, k), l)]],
+    sij  |-> [i \in 1..N |-> [k \in 1..CnI(i) |-> VarN(NS("q", f, i, k))]],
+    Sij  |-> [i \in 1..N |-> [k \in 1..CnI(i) |-> VarN(NS("Q", f, i, k))]],
+    n2   |-> [i \in 1..N |-> VarN(NN2("q", f, i))],          \* sum_m |q_lm|^2 (s_ij, w^_l undefined where it vanishes)
+    N2   |-> [i \in 1..N |-> VarN(NN2("Q", f, i))],
+    nb   |-> [i \in 1..N |-> [k \in 1..CnI(i) |-> NbI(i, k)]],
     cn   |-> [i \in 1..N |-> CnI(i)],
     cnt  |-> [j \in 1..Len(cs) |->
                [ c |-> QR(cs[j]),
-                 q |-> [i \in 1..N |-> Add([k \in 1..CnI(i) |-> Gt(SijTerm("q", f, i, NbI(i, k), l), QR(cs[j]))])],
-                 Q |-> [i \in 1..N |-> Add([k \in 1..CnI(i) |-> Gt(SijTerm("Q", f, i, NbI(i, k), l), QR(cs[j]))])] ]],
+                 q |-> [i \in 1..N |-> Add([k \in 1..CnI(i) |-> Gt(VarN(NS("q", f, i, k)), QR(cs[j]))])],
+                 Q |-> [i \in 1..N |-> Add([k \in 1..CnI(i) |-> Gt(VarN(NS("Q", f, i, k)), QR(cs[j]))])] ]],
     w    |-> IF withW THEN [i \in 1..N |-> VarN(NW("q", f, i))] ELSE << >>,
     W    |-> IF withW THEN [i \in 1..N |-> VarN(NW("Q", f, i))] ELSE << >>,
     wcap |-> IF withW THEN [i \in 1..N |-> WcapTerm("q", f, i)] ELSE << >>,
